@@ -127,7 +127,8 @@ struct Pair {
                     r = stepd(mkw("add", a, b, v.w, 0));
             } else if (GT<G>::fam == 'M') {
                 if (detour) {
-                    r = stepd(mk("add", {a, b, 0, v.k + 2, 0}));
+                    // a wrong multiplicity first (kept inside the 32-bit EdgeMultiplicity range), corrected below
+                    r = stepd(mk("add", {a, b, 0, v.k + 2 <= 4294967295LL ? v.k + 2 : v.k - 1, 0}));
                     if (r.empty())
                         r = src.m.directed ? stepd(mk("setm", {a, b, 0, v.k})) : stepd(mk("setm", {b, a, 0, v.k}));
                 } else if (v.k <= 3 && K(idx) % 2) {
@@ -178,7 +179,10 @@ struct Pair {
     }
 
     std::string run(const Case &c) {
-        size_t n0 = std::min<size_t>(12, (size_t)c.geti("n0", 0)), n1 = std::min<size_t>(12, (size_t)c.geti("n1", c.geti("n0", 0)));
+        size_t capN = c.geti("bign", 0) ? 80 : 12;
+        eo.maxN = capN;
+        eo.light = capN > 12; // 66-80 vertices: the equality verdicts are the point; the per-step observation leaves out the all-pairs tables
+        size_t n0 = std::min<size_t>(capN, (size_t)c.geti("n0", 0)), n1 = std::min<size_t>(capN, (size_t)c.geti("n1", c.geti("n0", 0)));
         e[0].reset(new E(n0, eo));
         e[1].reset(new E(n1, eo));
         std::string r = e[0]->start(observer);
